@@ -14,6 +14,15 @@
 //!                file and cut into files whose glob order varies), schemas that re-declare a built-in directive are
 //!                accepted in every order — the verdict only: WHICH definition the DuplicatedName diagnostic names
 //!                depends on the order, as for duplicate fragment names;
+//!  (c''') `multi-def` FAULTY schemas whose fault needs several definitions (directive reference cycles of length 1-3 with
+//!                referrers outside the cycle, `implements` cycles, missing transitive interfaces, non-covariant fields
+//!                along an interface chain, union members of the wrong kind, a type referenced from several definitions
+//!                and defined nowhere, input/output mix-ups, misapplied directives; valid controls; random directive
+//!                reference graphs judged by "rejected iff cyclic, exactly the cycle members reported"; random
+//!                `implements` graphs) in EVERY order of their <= 4 participating definitions, as one file and as one
+//!                file per definition (file names whose sorted order is the order): same exit status of `check` /
+//!                `generate` and the same multiset of (file type, message, definition, position inside it); the
+//!                family and the comparison are in c17/multidef.rs;
 //!  (d) `loader`  the real loader ABI (`loader_native`), required files loaded in different orders, many tasks per
 //!                process (every `HashMap::new()` gets a fresh `RandomState`): `emit_js` output must not vary.
 //! O failures: any byte difference between runs (signature = file kind + first differing construct), any
@@ -33,6 +42,8 @@ use std::time::Duration;
 
 #[path = "c17/targeted.rs"]
 mod targeted;
+#[path = "c17/multidef.rs"]
+mod multidef;
 
 type Files = Vec<(String, String)>;
 
@@ -673,6 +684,94 @@ impl<'a> Ctx<'a> {
     }
 
     // -----------------------------------------------------------------------------------------
+    // (c''') faults that need several definitions: every order, one file and one file per definition
+
+    fn multidef_fail(&mut self, m: &multidef::MultiDef, defs: &[String], la: &multidef::Layout, cmd_a: &'static str, lb: &multidef::Layout, cmd_b: &'static str, kind: &str, what: String) {
+        let sig = format!("perm:multi-def:{}:{kind}", m.class);
+        if self.rep.failures.iter().any(|f| f.stream == "O" && f.signature == sig) {
+            self.rep.fail("O", &sig, &what, Value::Null); // counted; the first (smallest) project of the class is the replay
+            return;
+        }
+        let (sa, sb, w) = multidef::shrink(&self.cli, &self.scratch, defs, la, cmd_a, lb, cmd_b, kind);
+        let what = if w.is_empty() { what } else { w };
+        self.rep.fail("O", &sig, &format!("project '{}': {what}", m.name), multidef::case_json(m.class, &m.name, defs, &sa, cmd_a, &sb, cmd_b));
+    }
+
+    fn multidef_expect(&mut self, class: &str, name: &str, defs: &[String], layout: &multidef::Layout, out: &multidef::Out, expect_rejected: Option<bool>, recursing: Option<&BTreeSet<String>>) {
+        let case = json!({"kind": "multidef-expect", "class": class, "project": name, "defs": defs, "a": Value::Array(layout.iter().map(|(p, ids)| json!([p, ids])).collect()),
+            "expect_rejected": expect_rejected, "recursing": recursing.map(|r| r.iter().cloned().collect::<Vec<_>>()),
+            "files_a": files_json(&multidef::layout_files(defs, layout))});
+        if let Some(rej) = expect_rejected {
+            let ok = if rej { out.code == Some(1) } else { out.code == Some(0) };
+            if !ok {
+                self.rep.fail("O", &format!("multi-def:{class}:{}", if rej { "faulty-schema-accepted" } else { "valid-schema-rejected" }),
+                    &format!("project '{name}': `check` exits {:?} on a schema that is {} by construction: {} {}", out.code, if rej { "faulty" } else { "valid" },
+                        out.stdout.chars().take(400).collect::<String>(), out.stderr.chars().take(200).collect::<String>()), case.clone());
+            }
+        }
+        if let Some(want) = recursing {
+            let (got, other) = multidef::recursing_names(&out.stdout);
+            if &got != want || !other.is_empty() {
+                self.rep.fail("O", &format!("multi-def:{class}:recursing-set"),
+                    &format!("project '{name}': the directives on a cycle of the reference graph are {want:?}; `check` reports {got:?} as recursing (other diagnostics: {other:?})"), case);
+            }
+        }
+    }
+
+    fn multidef_project(&mut self, rng: &mut Rng, m: &multidef::MultiDef, max_orders: usize, generate_all: bool) {
+        let n = m.defs.len();
+        let defs: Vec<String> = m.defs.iter().chain(m.rest.iter()).cloned().collect();
+        let mut orders = targeted::all_orders(n);
+        if orders.len() > max_orders + 1 {
+            let identity = orders.remove(0);
+            rng.shuffle(&mut orders);
+            orders.truncate(max_orders);
+            let rev: Vec<usize> = (0..n).rev().collect();
+            if !orders.contains(&rev) {
+                orders.push(rev);
+            }
+            orders.insert(0, identity);
+        }
+        // with 1-2 participating definitions the position of the other definitions still rotates
+        let rounds = orders.len().max(if m.rest.is_empty() { 1 } else { 3 });
+        let gen_pick = 1 + rng.below(rounds.max(2) - 1);
+        let mut plan: Vec<(multidef::Layout, &'static str)> = vec![];
+        for k in 0..rounds {
+            let o = &orders[k % orders.len()];
+            for one_per_file in [false, true] {
+                let l = multidef::make_layout(o, m.rest.len(), k, one_per_file);
+                plan.push((l.clone(), "check"));
+                if generate_all || k == 0 || k == gen_pick {
+                    plan.push((l, "generate"));
+                }
+            }
+        }
+        let jobs: Vec<multidef::Job> = plan.iter().map(|(l, cmd)| multidef::Job { files: multidef::layout_files(&defs, l), cmd }).collect();
+        self.counter += 1;
+        let outs = multidef::run_jobs(&self.cli, &self.scratch, &format!("p{}", self.counter), &jobs);
+        self.rep.evaluations += jobs.len() as u64;
+        self.rep.count(&format!("multi-def:class:{}", m.class));
+        self.rep.count_n("multi-def:layouts", plan.len() as u64);
+        self.rep.count(&format!("multi-def:base-verdict:{}", match outs[0].code { Some(0) => "accepted", Some(1) => "rejected", _ => "other" }));
+        self.rep.nontrivial(&format!("multi-def|{}|{:?}", m.name, defs));
+        // the written order against the construction
+        self.rep.o_cases += 1;
+        self.multidef_expect(m.class, &m.name, &defs, &plan[0].0, &outs[0], m.expect_rejected, m.recursing.as_ref());
+        // every other layout / command against the written order
+        let mut reported: BTreeSet<&'static str> = BTreeSet::new();
+        for i in 1..plan.len() {
+            self.rep.o_cases += 1;
+            if let Some((kind, what)) = multidef::compare(&defs, &plan[0].0, &outs[0], plan[0].1, &plan[i].0, &outs[i], plan[i].1) {
+                if reported.insert(kind) {
+                    self.multidef_fail(m, &defs, &plan[0].0, plan[0].1, &plan[i].0, plan[i].1, kind, what);
+                } else {
+                    self.rep.count(&format!("fail:O:perm:multi-def:{}:{kind}", m.class));
+                }
+            }
+        }
+    }
+
+    // -----------------------------------------------------------------------------------------
     // (a') schema given as an introspection JSON that omits built-in scalars
 
     fn introspection_project(&mut self, label: &str, json_text: String, ops: Vec<(String, String)>, scalars_yaml: &str, runs: usize, expect_ok: Option<bool>) {
@@ -1144,9 +1243,45 @@ fn replay(ctx: &mut Ctx, rng: &mut Rng, c: &Value) {
             let mut seen = (0, 0);
             loader_stream(ctx, rng, &case, c["trials"].as_u64().unwrap_or(20) as usize, &mut seen);
         }
+        "multidef" => {
+            let defs: Vec<String> = c["defs"].as_array().map(|a| a.iter().map(|x| x.as_str().unwrap_or("").to_string()).collect()).unwrap_or_default();
+            let (la, lb) = (multidef::layout_from_json(&c["a"]), multidef::layout_from_json(&c["b"]));
+            let cmd = |v: &Value| -> &'static str { if v.as_str() == Some("generate") { "generate" } else { "check" } };
+            let (ca, cb) = (cmd(&c["cmd_a"]), cmd(&c["cmd_b"]));
+            let outs = multidef::run_jobs(&ctx.cli, &ctx.scratch, "replay", &[multidef::Job { files: multidef::layout_files(&defs, &la), cmd: ca }, multidef::Job { files: multidef::layout_files(&defs, &lb), cmd: cb }]);
+            ctx.rep.evaluations += 2;
+            ctx.rep.o_cases += 1;
+            if let Some((kind, what)) = multidef::compare(&defs, &la, &outs[0], ca, &lb, &outs[1], cb) {
+                ctx.rep.fail("O", &format!("perm:multi-def:{}:{kind}", c["class"].as_str().unwrap_or("?")), &what, c.clone());
+            }
+        }
+        "multidef-expect" => {
+            let defs: Vec<String> = c["defs"].as_array().map(|a| a.iter().map(|x| x.as_str().unwrap_or("").to_string()).collect()).unwrap_or_default();
+            let la = multidef::layout_from_json(&c["a"]);
+            let outs = multidef::run_jobs(&ctx.cli, &ctx.scratch, "replay", &[multidef::Job { files: multidef::layout_files(&defs, &la), cmd: "check" }]);
+            ctx.rep.evaluations += 1;
+            ctx.rep.o_cases += 1;
+            let rec: Option<BTreeSet<String>> = c["recursing"].as_array().map(|a| a.iter().map(|x| x.as_str().unwrap_or("").to_string()).collect());
+            ctx.multidef_expect(c["class"].as_str().unwrap_or("?"), c["project"].as_str().unwrap_or("?"), &defs, &la, &outs[0], c["expect_rejected"].as_bool(), rec.as_ref());
+        }
         "sites" => k_sites(ctx),
         "idents" => k_idents(ctx, rng, 0),
         other => ctx.rep.notes.push(format!("unknown replay kind {other:?}")),
+    }
+}
+
+/// (c''') faults that need several definitions, every order of the definitions, one file / one file per definition
+fn multidef_stream(ctx: &mut Ctx, rng: &mut Rng, args: &Args) {
+    for m in multidef::family().iter() {
+        ctx.multidef_project(rng, m, args.budget(40, 119), args.thorough());
+    }
+    for k in 0..args.budget(8, 60) {
+        let m = multidef::random_directive_graph(rng, k);
+        ctx.multidef_project(rng, &m, 23, args.thorough());
+    }
+    for k in 0..args.budget(4, 40) {
+        let m = multidef::random_interface_graph(rng, k);
+        ctx.multidef_project(rng, &m, 23, args.thorough());
     }
 }
 
@@ -1164,6 +1299,13 @@ fn main() {
     if let Some(path) = &args.replay {
         let v: Value = serde_json::from_str(&std::fs::read_to_string(path).expect("replay file")).expect("replay json");
         replay(&mut ctx, &mut rng, &v["case"]);
+        rep.write(&args);
+        return;
+    }
+
+    // development aid: `--only multi-def` runs that stream alone
+    if args.extra.get("only").map(|s| s.as_str()) == Some("multi-def") {
+        multidef_stream(&mut ctx, &mut rng, &args);
         rep.write(&args);
         return;
     }
@@ -1242,6 +1384,8 @@ fn main() {
         for t in targeted::DUP_NAMES.iter() {
             ctx.dup_names_project(&mut rng, t, args.budget(23, 119), args.budget(6, 24));
         }
+
+        multidef_stream(&mut ctx, &mut rng, &args);
 
         // (a') introspection-JSON schemas that omit several built-in scalars
         let hand: [(&str, &str, &str, &str); 3] = [
